@@ -230,6 +230,13 @@ static void op_closure(const McArg *a) {
         int64_t ps[] = {0, 1, n - 2, n - 1, n, n + 1, (n + full) / 2, full - 2, full - 1, full, full + 1, -1, INT64_MAX, INT64_MIN};
         for (unsigned q = 0; q < sizeof ps / sizeof *ps; q++)
             if (CALL(childPosToCell(ps[q], h, cr, &o)) == 0) chk_out("childPosToCell(boundary position)", h, o, cr);
+        // the internal block boundaries of the position arithmetic: k*7^j and the pentagon widths 1+5(7^j-1)/6, each -1/+0/+1
+        for (int64_t w7 = 1, j = 0; j <= cr - res; j++, w7 *= 7) {
+            int64_t pw = 1 + 5 * (w7 - 1) / 6;
+            int64_t qs[] = {w7 - 1, w7, w7 + 1, 2 * w7, 6 * w7 - 1, pw - 1, pw, pw + 1, pw + w7};
+            for (unsigned q = 0; q < sizeof qs / sizeof *qs; q++)
+                if (qs[q] >= 0 && CALL(childPosToCell(qs[q], h, cr, &o)) == 0) chk_out("childPosToCell(block boundary)", h, o, cr);
+        }
     }
     for (int p = res + 1; p <= 16; p += 3)
         if (CALL(cellToParent(h, p, &o)) == 0) chk_out("cellToParent(finer)", h, o, -1);
